@@ -17,6 +17,7 @@ from .rules import more as MO
 from .rules import rx as RX
 from .rules import rg as RG
 from .rules import r2 as R2
+from .rules import r3 as R3
 
 TRUST = ('trusted: the CPython parser (ast), the callee resolver of sa/model.py (receiver roles, '
          'unique method names), Python list/str/re semantics as encoded in the rules; ')
@@ -50,7 +51,7 @@ prop('C01',
      'DESIGN.md 3.1, 3.2, 4 C01')
 
 prop('C02',
-     [SC.pd6, PD.pd1, PD.pd3, PD.pd4, PD.pd5, PD.pd8, MI.pd0, MI.tx1, T.sp3, LS.ls1, LS.ls1_ml, AB.ab3],
+     [SC.pd6, PD.pd1, PD.pd3, PD.pd4, PD.pd5, PD.pd8, MI.pd0, MI.tx1, T.sp3, LS.ls1, LS.ls1_ml, AB.ab3, R3.rs1],
      'copied text keeps its own offset: argument tokens are moved, never rewritten (PD5); a '
      'shortened token advances its position by the removed prefix, only if unpinned (PD4, '
      'PD3); replaced sequences are copy-form tokens at the position of the sequence (PD1, '
@@ -63,7 +64,7 @@ prop('C02',
      'DESIGN.md 3.1, 4 C02')
 
 prop('C03',
-     [MI.dt1, MI.ex2, MI.df1, PD.pd5, ST.ls2p, ST.at1, ST.ex1, RG.rg1, RG.rg2, R2.at2, SC.sc5],
+     [MI.dt1, MI.ex2, MI.df1, PD.pd5, ST.ls2p, ST.at1, ST.ex1, RG.rg1, RG.rg2, R2.at2, SC.sc5, R3.rs1],
      'no markup class reaches the default emit and comments are dropped (DT1); an argument '
      'handed back for expansion is not expanded a second time by its handler (EX2: no '
      'duplicated footnotes); text of definition files never reaches the output, including '
@@ -77,7 +78,7 @@ prop('C03',
      'DESIGN.md 3.8 (DT1, EX1), 3.4 (DF1), 4 C03')
 
 prop('C04',
-     [PD.pd1, PD.pd2, PD.pd3, PD.pd5, PD.pd8, MI.pd0, ST.pd7, AB.ab1],
+     [PD.pd1, PD.pd2, PD.pd3, PD.pd5, PD.pd8, MI.pd0, ST.pd7, AB.ab1, AB.ab3],
      'every generated token is pinned (PD1), re-stamped tokens are pinned (PD2), and bodies, '
      'defaults, glossary and cleveref replacements are copied before they are stamped (PD5)',
      'decides that generated text cannot spread or be re-mapped by a later use; not decided: '
@@ -88,7 +89,7 @@ prop('C04',
      'DESIGN.md 3.1, 4 C04')
 
 prop('C05',
-     [MO.ac1, MO.ac2, PD.pd4, PD.pd3],
+     [MO.ac1, MO.ac2, PD.pd4, PD.pd3, R3.tk1, R3.ml8, R3.sc7, R3.ac3],
      'enabling invariants of the line-removal pass: every vanishing construct leaves an action '
      'token (or a paragraph token / visible text) on every path and substituted arguments are '
      'bracketed by action tokens (AC1); the skip-space set excludes paragraph tokens (AC2); a '
@@ -103,7 +104,7 @@ prop('C05',
      'DESIGN.md 3.8 (AC1, AC2), 4 C05')
 
 prop('C06',
-     [T.sp1, T.sp2, T.sp3, T.ix4, MI.pd0, SC.sp4, SC.pd6],
+     [T.sp1, T.sp2, T.sp3, T.ix4, MI.pd0, SC.sp4, SC.pd6, R3.ix15, R3.ac3, PD.pd1, PD.pd5, R3.sc7],
      'static table and dispatch rules: the special-sequence table equals the documented one '
      'and contains nothing else that plain prose could hit (SP1), values are never longer '
      'than keys (SP3), longest match (SP2), tables well-formed (IX4)',
@@ -118,7 +119,7 @@ prop('C06',
      'DESIGN.md 3.8 (SP1-SP3), 3.6 (IX4), 4 C06')
 
 prop('C07',
-     [SC.pd6, T.ix4, ST.at1, RG.ix1, RG.ix2a, MO.ix2s, MO.ix6, MO.ix7, MO.ix8, MO.ix9, MO.ix10, MO.pg1, MI.tx1],
+     [SC.pd6, T.ix4, ST.at1, RG.ix1, RG.ix2a, MO.ix2s, MO.ix6, MO.ix7, MO.ix8, MO.ix9, MO.ix10, MO.pg1, MI.tx1, R3.sp5, R3.ix11, R3.ix12, R3.ix13, R3.ix15],
      'progress of the scanner on every path (PD6: the scan position strictly increases, with '
      'bounds of next()/find() results), well-formed tables (IX4)',
      'decides termination of the scanner and table well-formedness; further index-safety rules '
@@ -129,7 +130,7 @@ prop('C07',
      'DESIGN.md 3.6, 4 C07')
 
 prop('C08',
-     [EM.em1, EM.em2, EM.em3, R2.em4, AB.ab1, OK.ok1, SC.sc5],
+     [EM.em1, EM.em2, EM.em3, R2.em4, AB.ab1, OK.ok1, SC.sc5, R3.rs1],
      'the mark is used whole (EM1), is produced only together with a diagnostic (EM2), and '
      'recovery pushes the consumed tokens back (EM3)',
      'decides the structural clauses "complete mark", "never a mark without diagnostic", '
@@ -141,7 +142,7 @@ prop('C08',
      'DESIGN.md 3.7, 4 C08')
 
 prop('C10',
-     [MT.mt1, MT.mt2, MT.mt5, R2.mt6, R2.mt7, R2.mt8, MI.ex2, MI.lc1, PS.ps3, T.mt4, PD.pd1],
+     [MT.mt1, MT.mt2, MT.mt5, R2.mt6, R2.mt7, R2.mt8, MI.ex2, MI.lc1, PS.ps3, T.mt4, PD.pd1, R3.ix14, MO.ml2, R3.tk1],
      'rotation state: an argument is expanded once (EX2: formulas inside handler arguments '
      'consume one placeholder), collections are per language and looked up at the time of use '
      '(LC1), punctuation entries are single characters (MT4), generated tokens pinned (PD1)',
@@ -157,7 +158,7 @@ prop('C10',
      'DESIGN.md 3.8 (MT1-MT4), 4 C10')
 
 prop('C11',
-     [MT.mt1, MT.mt2, MT.mt3, MT.mt5, R2.mt6, R2.mt7, R2.mt8, T.mt4, MI.lc1, PS.ps3, PD.pd1],
+     [MT.mt1, MT.mt2, MT.mt3, MT.mt5, R2.mt6, R2.mt7, R2.mt8, T.mt4, MI.lc1, PS.ps3, PD.pd1, R3.ix14, MO.ml2, R3.tk1],
      'the decision table of replace_section equals the documented scheme incl. rotation points, '
      'operator words and punctuation (MT1); section flag / next-replacement threading and the '
      'final punctuation of simple / removed equations (MT2); all catalogue equation '
@@ -173,7 +174,7 @@ prop('C11',
      'DESIGN.md 3.8 (MT1-MT5), 4 C11')
 
 prop('C12',
-     [LS.ls1_ml, MO.ml2, R2.ml4, R2.lc2, MI.ml6, MI.lc1, ST.ex1, OK.ok4, R2.okv],
+     [LS.ls1_ml, MO.ml2, R2.ml4, R2.lc2, MI.ml6, MI.lc1, ST.ex1, OK.ok4, R2.okv, R3.ml7, R3.ml8],
      'text and map of every language section stay in lock step through sectioning, joining '
      'and placeholder insertion (LS1m)',
      'decides only the lock-step clause of C12 so far',
@@ -183,7 +184,7 @@ prop('C12',
      'DESIGN.md 3.2, 4 C12')
 
 prop('C13',
-     [LS.ls1, AB.ab3, R2.okv, RX.rp1],
+     [LS.ls1, AB.ab3, R2.okv, RX.rp1, R2.ps5, R3.rp2, R3.rx5],
      'equal lengths after substitution for every combination of shorter / equal / longer '
      'replacement (LS1 on substitute and replace_phrases)',
      'decides the equal-length clause; more clauses follow',
@@ -192,7 +193,7 @@ prop('C13',
      'DESIGN.md 3.2, 4 C13')
 
 prop('C14',
-     [OK.ok1, OK.ok2, OK.ok4, R2.th3, R2.okv, LS.ls1_shell, AB.ab2, MI.oks, PS.ps1],
+     [OK.ok1, OK.ok2, OK.ok4, R2.th3, R2.okv, LS.ls1_shell, AB.ab2, MI.oks, PS.ps1, R3.ok6, R3.ml7, R3.ix13],
      'the chain part offset -> total offset -> LaTeX offset -> line / column: every match of a '
      'part is shifted once by the text accumulated before it (OK2), the accumulated text and map '
      'stay in lock step incl. delimiter padding (LS1s), map entries are read through abs() and '
@@ -208,7 +209,7 @@ prop('C14',
      'DESIGN.md 3.2, 4 C14')
 
 prop('C15',
-     [TJ.tj1, TJ.tj2, TJ.tj3, AB.ab2, MI.oks, R2.okv],
+     [TJ.tj1, TJ.tj2, TJ.tj3, AB.ab2, MI.oks, R2.okv, R3.ix13],
      'every access to answer data is type-checked through json_get or validated at source '
      '(TJ1, interprocedural taint from JSONDecoder.decode through parameters, callbacks, '
      'tuples and attributes), decoding is guarded (TJ2), the error path is one diagnostic and '
@@ -222,7 +223,7 @@ prop('C15',
      'DESIGN.md 3.4, 3.2 (AB2), 4 C15')
 
 prop('C16',
-     [TH.th1, TH.th2, R2.th3, R2.th4, R2.cm2, MO.ln1],
+     [TH.th1, TH.th2, R2.th3, R2.th4, R2.cm2, MO.ln1, R3.rx5, R3.ix13, R3.cm3, R3.th6],
      'escaping exactly once for all sources the property names, by a three-valued taint '
      '(raw / escaped-or-markup / mixed) through concatenations, helper functions, re.sub '
      'callbacks and result tuples; protect_html checked as a table (TH1); each match '
@@ -239,7 +240,7 @@ prop('C16',
      'DESIGN.md 3.4 (TH1, TH2), 3.2 (LS2), 4 C16')
 
 prop('C18',
-     [ST.ex1, ST.wl1, ST.ls2p, MI.dt1, MI.df1, R2.cm2, SC.sc5],
+     [ST.ex1, ST.wl1, ST.ls2p, MI.dt1, MI.df1, R2.cm2, SC.sc5, R3.rs1],
      'init_extractions rewrites every macro and extracts the first mandatory argument, the main '
      'text is dropped, flows are appended once in order (EX1); the work list takes one name per '
      'iteration, records it exactly as tested after the done / skip test, and adds only names '
@@ -254,7 +255,7 @@ prop('C18',
      'DESIGN.md 3.8 (EX1, WL1), 4 C18')
 
 prop('C19',
-     [MI.uk, R2.uk5, SC.sc5, PS.ps1],
+     [MI.uk, R2.uk5, SC.sc5, PS.ps1, R3.sp5, R3.mc1, R3.rs1],
      'recorded only when undeclared at the time of use, only in text mode, once, reset per '
      'document, printed one per line (UK); what is declared does not depend on earlier calls '
      '(PS1)',
@@ -266,7 +267,7 @@ prop('C19',
      'DESIGN.md 3.8 (UK1-UK4), 4 C19')
 
 prop('C20',
-     [RX.ck1, RX.ck4, RX.ck5, RX.ab4, OK.ok2, PS.ps1],
+     [RX.ck1, RX.ck4, RX.ck5, RX.ab4, OK.ok2, PS.ps1, R3.lc3, R3.ck6, R3.ck7],
      'single-letter scan pattern has width 1 between word boundaries and letters only, accepted '
      'patterns are literal, the suppression test is beg <= position < end with the right '
      'strictness, offset and length come from one match (CK1); the equation-punctuation pattern '
